@@ -76,6 +76,7 @@ class Cfg(object):
         self.twin_entry_p = 0  # 0 = never; otherwise one bar in twin_entry_p gets, next to a sounding entry, an entry of the same value with the same pitches spelled differently
         self.reuse_p = 0  # 0 = never; otherwise one bar in reuse_p has a later entry that is the very same container object as an earlier one (possibly with another value)
         self.duck_instruments = False  # MIDI instruments may be plain Instrument objects carrying an instrument_nr attribute
+        self.equal_pitch_p = 0  # 0 = never; otherwise one chord in equal_pitch_p also holds an enharmonic respelling of one of its notes (as after item assignment)
         self.gm_names = True  # MIDI instruments may carry a General MIDI name (independent of their number)
         self.twin_p = 0  # 0 = never; otherwise one bar in twin_p is followed by its enharmonic twin (same pitches, other spelling)
         self.__dict__.update(kw)
@@ -150,6 +151,12 @@ def _entry(draw, cfg, v, content):
         e["bpm"] = draw(cfg.bpms)
     if cfg.unsorted_p and e["notes"] and len(e["notes"]) > 1 and draw(st.integers(0, cfg.unsorted_p - 1)) == 0:
         e["notes"] = draw(st.permutations(e["notes"]))
+    if cfg.equal_pitch_p and e["notes"] and draw(st.integers(0, cfg.equal_pitch_p - 1)) == 0:
+        k = draw(st.integers(0, len(e["notes"]) - 1))
+        twin = respell(e["notes"][k], cfg.octaves)
+        if twin[:2] != e["notes"][k][:2]:
+            e["notes"] = list(e["notes"])
+            e["notes"].insert(draw(st.integers(0, len(e["notes"]))), twin)
     if cfg.subclass_p and e["notes"] and draw(st.integers(0, cfg.subclass_p - 1)) == 0:
         e["sub"] = True
     return e
@@ -253,6 +260,8 @@ def features(comp_or_track):
             f.add("tuplet")
         if any(e["v"][0] == "ticks" for e in es):
             f.add("tick-value")
+        if any(e["notes"] and len({T.pitch(n[0], n[1]) for n in e["notes"]}) < len(e["notes"]) for e in es):
+            f.add("two-spellings-of-one-pitch-in-a-chord")
         if any("reuse" in e for e in es):
             f.add("one-container-object-twice")
         if any(e["v"][0] == "num" for e in es):
